@@ -77,7 +77,16 @@ def end_to_end(ctx, n):
         ds, _ = small_single(rng)
         ds = ds.assign(b0=ds['cold'], b1=ds['warm'])
         x = ds.x.values
-        if k % 3 == 1:    # two stretches touching exactly on a grid point (same or different baths): a location used twice
+        if k % 4 == 3:    # an EMPTY stretch (between two neighbouring locations / reversed / beyond the fibre) next to non-empty, disjoint ones
+            a, b_, c = sorted(rng.choice(np.arange(1, len(x) - 1), size=3, replace=False).tolist())
+            dx = float(x[b_ + 1] - x[b_]) if b_ + 1 < len(x) else 1.0
+            empty = [(float(x[b_]) + 0.3 * dx, float(x[b_]) + 0.6 * dx), (float(x[c]), float(x[a])), (float(x[-1]) + 1.0, float(x[-1]) + 2.0)][k // 4 % 3]
+            others = [(float(x[0]), float(x[a]))] + ([(float(x[c]), float(x[-1]))] if c > b_ + 1 else [])
+            lst_ = others + [empty]
+            order = rng.permutation(len(lst_))
+            secs = [(0, [lst_[i] for i in order])] if (k // 4) % 2 else [(int(i % 2), [lst_[i]]) for i in order]
+            secs = [(b, [st for bb, l in secs if bb == b for st in l]) for b in sorted({bb for bb, _ in secs})]
+        elif k % 3 == 1:    # two stretches touching exactly on a grid point (same or different baths): a location used twice
             a, b_, c = sorted(rng.choice(np.arange(len(x)), size=3, replace=False).tolist())
             s1, s2 = (float(x[a]), float(x[b_])), (float(x[b_]), float(x[c]))
             secs = [(0, [s1, s2])] if rng.random() < 0.5 else [(0, [s1]), (1, [s2])]
@@ -105,6 +114,7 @@ def end_to_end(ctx, n):
             ("variance_stokes_constant", lambda: variance_stokes_constant(ds["st"], pysec, ds["userAcquisitionTimeFW"], reshape_residuals=False), usable_est),
             ("variance_stokes_exponential", lambda: variance_stokes_exponential(ds["st"], pysec, ds["userAcquisitionTimeFW"], reshape_residuals=False), usable_est),
             ("variance_stokes_linear", lambda: variance_stokes_linear(ds["st"], pysec, ds["userAcquisitionTimeFW"], nbin=2), usable_est),
+            ("ufunc_per_section", lambda: ds.dts.ufunc_per_section(sections=pysec, x_indices=True, calc_per="all"), usable_est),
         ):
             try:
                 call()
